@@ -177,7 +177,7 @@ def exc_info(ex):
             'cause_str': (str(cause)[:200] if cause is not None else None)}
 
 
-def run_dag(scn, *, hooks_factory=None, keep=False, extra_hooks=None, before_run=None, after_run=None):
+def run_dag(scn, *, hooks_factory=None, keep=False, extra_hooks=None, before_run=None, after_run=None, prebuilt=None):
     """scn keys: spec, backend, max_workers, sched_seed, fresh_prob, build_seed,
     pre (names pre-run to warm the cache), pre_backend, bust, failing {name: act},
     cof, gated, ctx, storage, free_sleep, displays, requested (override)."""
@@ -267,8 +267,12 @@ def run_dag(scn, *, hooks_factory=None, keep=False, extra_hooks=None, before_run
             tasks_plan.setdefault(n, {}).update(ent)
         write_plan(ctl, 1, tasks_plan, default)
         brng = random.Random(scn.get('build_seed', 0))
-        built = Built(spec, rng=brng, fresh_prob=scn.get('fresh_prob', 0.0))
-        req = built.requested(requested_names)
+        if prebuilt is not None:
+            # the caller runs the very task objects of an earlier run again (another Lab, another context)
+            built, req = prebuilt
+        else:
+            built = Built(spec, rng=brng, fresh_prob=scn.get('fresh_prob', 0.0))
+            req = built.requested(requested_names)
         if scn.get('pickled_copies'):
             # the caller passes copies that went through pickle (e.g. tasks received from another process)
             import pickle
